@@ -38,6 +38,9 @@ def _case(draw, tier):
     c["ri"] = draw(st.booleans())
     c["max_tau"] = draw(gen.maxtau_for(g))
     c["interval"] = None if c["measure"] == "ORDER" else draw(gen.interval_arg_for(g))
+    # the order functions document `interval` as not implemented (NotImplementedError);
+    # should a tree accept it, the value has to be the profile's average over it
+    c["order_interval"] = draw(gen.interval_arg_for(g)) if c["measure"] == "ORDER" else None
     c["form"] = draw(st.sampled_from(["list", "args", "indices"]))
     if c["form"] == "indices":
         # a selection through `indices` (any order): distance and profile of
@@ -159,6 +162,24 @@ def run_case(case, ctx):
         ctx.check(ps.close(d, a, tol), "value_vs_profile_avrg",
                   lambda: "%s value=%r profile.avrg=%r interval=%r"
                   % (case["measure"], float(d), float(a), case["interval"]))
+    if case["measure"] == "ORDER" and case.get("order_interval") is not None:
+        ivo = gen.to_interval(case["order_interval"])
+        from ..env import quiet
+        from ..runner import watchdog
+        try:
+            with quiet(), watchdog():
+                d_iv = fn["dist"](*args, interval=ivo, **kw)
+        except NotImplementedError:
+            ctx.notes["order_with_interval_not_implemented"] += 1
+        except Exception as e:
+            ctx.fail("order_with_interval:exception:" + type(e).__name__, repr(e))
+        else:
+            y_, mp_ = M.model_avrg(model, case["order_interval"])
+            if mp_ > 0:
+                ctx.check(ps.close(d_iv, y_ / mp_, 1e-10), "order_value_vs_profile_sums_interval",
+                          lambda: "spike_train_order over %r: %r, but the profile sums inside it "
+                                  "give %r" % (case["order_interval"], float(d_iv),
+                                               float(y_ / mp_)))
     if case["form"] != "args" and not case.get("_edited"):
         # the caller edits one of the trains in the list it already passed and asks
         # again with the same list object: the relation must hold for the new content
